@@ -337,6 +337,7 @@ def check_history(case):
     effective = 0
     inplace_after_effective = False
     retired = []  # sources of copying steps: must stay untouched whatever happens to the copies later
+    carry = {}  # per object: bound on the divergence between the object and its twin accumulated so far
     for si, step in enumerate(case["steps"]):
         for okind, x, sn, when in retired:
             now = {"region": snap_region, "mesh": snap_mesh, "field": snap_field}[okind](x)
@@ -409,6 +410,17 @@ def check_history(case):
             tols = [max(t, tt) for t, tt in zip(tols, tol_for(elo, ehi, [F(0)] * nd))]
             tolf = max(tols)
             tols = [tolf if kind == "rot" else t for t in tols]
+            # the twin was advanced with the other form through every earlier step and differs from this object by
+            # the rounding of those steps (each bounded by that step's tolerance, which may stem from a far
+            # reference point or an earlier, larger coordinate): carry it forward, scaled by this step's factors
+            growth = F(1)
+            if kind == "scale":
+                fs = step[1] if isinstance(step[1], list) else [step[1]]
+                growth = max(abs(F(x)) for x in fs)
+                growth = max(growth, F(1))
+            carried = carry.get(o.kind, F(0)) * growth
+            carry[o.kind] = carried + 2 * tolf
+            tols = [t + carried for t in tols]
             units_pre = list(ra.units)
             subs_pre = {}
             if o.kind != "region":
